@@ -1,0 +1,509 @@
+//go:build verif && linux
+// +build verif,linux
+
+package main
+
+// Add-only verification hook (build tag "verif"): drives the REAL runService loop with a scripted HOST on the
+// other end of stdin/stdout and logs, in one global order, every packet the host writes and every packet it
+// reads. One session per line of $VERIF_OPS, one log line per session on $VERIF_OUT.
+//
+// script:  <seed> <item> <item> ...
+//
+//	T<id>                 transform request
+//	F<id>                 format-msgs request
+//	I<id>                 request with an unknown command
+//	B<id>:<key>:<opts>    build request; opts: c context, p plugins (on-resolve + on-load), e on-end callbacks,
+//	                      x a flag that does not parse (early error), y options that api.Context rejects, digits = number of virtual imports
+//	R<id>:<key> C<id>:<key> D<id>:<key> S<id>:<key> W<id>:<key> V<id>:<key>
+//	                      rebuild / cancel / dispose / resolve / watch / serve on a build key
+//	w<id>                 wait for the response to host request <id>
+//	q                     wait until nothing is outstanding in either direction
+//	z<n>                  sleep n*20us
+//	X<id>                 send a RESPONSE packet with an id nobody waits for (the service panics)
+//	G                     send a packet that does not decode (ignored by the service)
+//	n<k>                  from now on, a host callback handler issues a nested "resolve" request with
+//	                      probability k/8 (and waits for its response before answering with probability 1/2)
+//
+// Service requests (on-start, on-resolve, on-load, on-end) are answered by the host after a random delay and in
+// random order (PRNG seeded by <seed>).
+//
+// log:  >Q<id>:<cmd>:<key>  host wrote a request      >A<id>  host answered service request <id>
+//       >X<id> stale response   >G garbage            <R<id>:<class>  service responded (class 1 = one of the
+//       fixed refusals "Cannot rebuild" ..., 0 = anything else)       <Q<id>:<cmd>:<key>:<hint>  service request
+//       (hint = id of the host "resolve" request that caused an on-resolve, else -1)
+//       then EOF and one of EXIT | PANIC | HANG | TIMEOUT.
+//
+// Nothing in esbuild refers to this file; without the tag it is not compiled.
+
+import (
+	"bufio"
+	"fmt"
+	"io"
+	"os"
+	"strconv"
+	"strings"
+	"sync"
+	"testing"
+	"time"
+)
+
+type verifHost struct {
+	mu        sync.Mutex // guards everything below and serialises writes to the service's stdin
+	cond      *sync.Cond
+	log       []string
+	inW       *os.File
+	rng       uint64
+	answered  map[uint32]bool // host requests whose response has arrived
+	waiting   int             // host requests without response
+	unanswerd int             // service requests not yet answered
+	nextID    uint32          // ids for nested requests
+	nested    int             // probability (k/8) of a nested resolve inside a callback
+	keyOf     map[uint32]int
+	dir       string
+	dead      bool
+	wg        sync.WaitGroup
+}
+
+func (h *verifHost) rand(n int) int {
+	// splitmix64, under h.mu
+	h.rng += 0x9e3779b97f4a7c15
+	z := h.rng
+	z = (z ^ (z >> 30)) * 0xbf58476d1ce4e5b9
+	z = (z ^ (z >> 27)) * 0x94d049bb133111eb
+	z ^= z >> 31
+	return int(z % uint64(n))
+}
+
+// send logs and writes one packet (the log order is the order on the service's stdin)
+func (h *verifHost) send(entry string, bytes []byte) {
+	h.mu.Lock()
+	defer h.mu.Unlock()
+	if h.dead {
+		return
+	}
+	h.log = append(h.log, entry)
+	h.inW.Write(bytes)
+}
+
+func (h *verifHost) request(id uint32, cmd string, key int, value map[string]interface{}) {
+	value["command"] = cmd
+	if key >= 0 {
+		value["key"] = key
+	}
+	h.mu.Lock()
+	h.waiting++
+	h.keyOf[id] = key
+	h.mu.Unlock()
+	h.send(fmt.Sprintf(">Q%d:%s:%d", id, cmd, key), encodePacket(packet{id: id, isRequest: true, value: value}))
+}
+
+func verifStrings(xs ...string) []interface{} {
+	out := make([]interface{}, len(xs))
+	for i, x := range xs {
+		out[i] = x
+	}
+	return out
+}
+
+func (h *verifHost) build(id uint32, key int, opts string) {
+	imports := 0
+	for _, c := range opts {
+		if c >= '0' && c <= '9' {
+			imports = imports*10 + int(c-'0')
+		}
+	}
+	src := ""
+	for i := 0; i < imports; i++ {
+		src += fmt.Sprintf("import \"v:%d_%d\";\n", key, i)
+	}
+	src += "console.log(1)\n"
+	flags := []string{"--bundle", "--log-level=silent"}
+	if strings.Contains(opts, "x") {
+		flags = append(flags, "--no-such-flag")
+	}
+	if strings.Contains(opts, "y") { // parses, but api.Context / api.Build reject it
+		flags = append(flags, "--outfile=a.js", "--outdir=b")
+	}
+	value := map[string]interface{}{
+		"context":         strings.Contains(opts, "c"),
+		"write":           false,
+		"entries":         []interface{}{},
+		"flags":           verifStrings(flags...),
+		"absWorkingDir":   h.dir,
+		"nodePaths":       []interface{}{},
+		"stdinContents":   []byte(src),
+		"stdinResolveDir": h.dir,
+	}
+	if strings.Contains(opts, "p") || strings.Contains(opts, "e") {
+		onResolve, onLoad := []interface{}{}, []interface{}{}
+		if strings.Contains(opts, "p") {
+			onResolve = append(onResolve, map[string]interface{}{"id": 1, "filter": "^v:", "namespace": ""})
+			onLoad = append(onLoad, map[string]interface{}{"id": 2, "filter": ".*", "namespace": "v"})
+		}
+		value["plugins"] = []interface{}{map[string]interface{}{
+			"name": "p", "onEnd": strings.Contains(opts, "e"), "onResolve": onResolve, "onLoad": onLoad,
+		}}
+	}
+	h.request(id, "build", key, value)
+}
+
+func (h *verifHost) simple(id uint32, kind byte) {
+	switch kind {
+	case 'T':
+		h.request(id, "transform", -1, map[string]interface{}{
+			"inputFS": false, "input": []byte(fmt.Sprintf("let x%d = 1 + 2", id)), "flags": verifStrings("--minify"),
+		})
+	case 'F':
+		h.request(id, "format-msgs", -1, map[string]interface{}{
+			"isWarning": false, "messages": []interface{}{map[string]interface{}{
+				"id": "", "pluginName": "", "text": "t", "location": nil, "detail": -1, "notes": []interface{}{},
+			}},
+		})
+	default:
+		h.request(id, "no-such-command", -1, map[string]interface{}{})
+	}
+}
+
+func (h *verifHost) keyed(id uint32, kind byte, key int) {
+	switch kind {
+	case 'R':
+		h.request(id, "rebuild", key, map[string]interface{}{})
+	case 'C':
+		h.request(id, "cancel", key, map[string]interface{}{})
+	case 'D':
+		h.request(id, "dispose", key, map[string]interface{}{})
+	case 'W':
+		h.request(id, "watch", key, map[string]interface{}{})
+	case 'V':
+		h.request(id, "serve", key, map[string]interface{}{"host": "127.0.0.1", "onRequest": false})
+	case 'S':
+		h.request(id, "resolve", key, map[string]interface{}{
+			"path": fmt.Sprintf("v:n%d", id), "pluginName": "p", "importer": "", "namespace": "",
+			"resolveDir": h.dir, "kind": "import-statement",
+		})
+	}
+}
+
+func (h *verifHost) waitFor(pred func() bool) bool {
+	deadline := time.Now().Add(20 * time.Second)
+	h.mu.Lock()
+	defer h.mu.Unlock()
+	for !pred() && !h.dead {
+		if time.Now().After(deadline) {
+			return false
+		}
+		h.cond.Wait()
+	}
+	return true
+}
+
+// answer one service request: random delay, maybe a nested resolve request, then the response
+func (h *verifHost) answer(id uint32, request map[string]interface{}) {
+	defer h.wg.Done()
+	command, _ := request["command"].(string)
+	key, _ := request["key"].(int)
+	path, _ := request["path"].(string)
+	h.mu.Lock()
+	delay := 0
+	switch h.rand(8) {
+	case 0, 1, 2:
+		delay = h.rand(10)
+	case 3:
+		delay = h.rand(100)
+	}
+	nest := command != "ping" && !strings.HasPrefix(path, "v:n") && h.rand(8) < h.nested
+	nestWait := h.rand(2) == 0
+	var nid uint32
+	if nest {
+		nid = h.nextID
+		h.nextID++
+	}
+	h.mu.Unlock()
+	if delay > 0 {
+		time.Sleep(time.Duration(delay) * 20 * time.Microsecond)
+	}
+	if nest {
+		h.keyed(nid, 'S', key)
+		if nestWait {
+			h.waitFor(func() bool { return h.answered[nid] })
+		}
+	}
+	var value map[string]interface{}
+	switch command {
+	case "on-start", "on-end":
+		value = map[string]interface{}{"errors": []interface{}{}, "warnings": []interface{}{}}
+	case "on-resolve":
+		value = map[string]interface{}{"id": 1, "path": strings.TrimPrefix(path, "v:"), "namespace": "v"}
+	case "on-load":
+		value = map[string]interface{}{"id": 2, "contents": []byte("export default 1")}
+	default:
+		value = map[string]interface{}{}
+	}
+	h.send(fmt.Sprintf(">A%d", id), encodePacket(packet{id: id, isRequest: false, value: value}))
+	h.mu.Lock()
+	h.unanswerd--
+	h.cond.Broadcast()
+	h.mu.Unlock()
+}
+
+var verifRefusals = map[string]bool{
+	"Cannot rebuild": true, "Cannot watch": true, "Cannot serve": true,
+	"Cannot call \"resolve\" on an inactive build": true,
+}
+
+// reads the service's stdout: frames, decodes, logs, dispatches service requests to answer goroutines
+func (h *verifHost) reader(outR *os.File, done chan struct{}) {
+	defer close(done)
+	br := bufio.NewReaderSize(outR, 1<<16)
+	first := true
+	for {
+		var lenBuf [4]byte
+		if _, err := io.ReadFull(br, lenBuf[:]); err != nil {
+			return
+		}
+		n, _, _ := readUint32(lenBuf[:])
+		body := make([]byte, n)
+		if _, err := io.ReadFull(br, body); err != nil {
+			return
+		}
+		if first { // the version header
+			first = false
+			continue
+		}
+		p, ok := decodePacket(body)
+		h.mu.Lock()
+		if !ok {
+			h.log = append(h.log, "<UNDECODABLE")
+			h.mu.Unlock()
+			continue
+		}
+		if p.isRequest {
+			request, _ := p.value.(map[string]interface{})
+			command, _ := request["command"].(string)
+			key, hasKey := request["key"].(int)
+			if !hasKey {
+				key = -1
+			}
+			hint := -1 // an on-resolve caused by a host "resolve" request names that request in its path
+			if path, _ := request["path"].(string); strings.HasPrefix(path, "v:n") {
+				if n, err := strconv.Atoi(path[3:]); err == nil {
+					hint = n
+				}
+			}
+			h.log = append(h.log, fmt.Sprintf("<Q%d:%s:%d:%d", p.id, command, key, hint))
+			h.unanswerd++
+			h.wg.Add(1)
+			h.mu.Unlock()
+			go h.answer(p.id, request)
+			continue
+		}
+		class := 0
+		if m, ok := p.value.(map[string]interface{}); ok {
+			if text, ok := m["error"].(string); ok && (verifRefusals[text] || strings.HasPrefix(text, "Invalid command: ")) {
+				class = 1
+			}
+		}
+		h.log = append(h.log, fmt.Sprintf("<R%d:%d", p.id, class))
+		h.answered[p.id] = true
+		h.waiting--
+		h.cond.Broadcast()
+		h.mu.Unlock()
+	}
+}
+
+func verifAsyncSession(script string, dir string) string {
+	items := strings.Fields(script)
+	if len(items) == 0 {
+		return "bad-op"
+	}
+	seed, err := strconv.ParseUint(items[0], 10, 64)
+	if err != nil {
+		return "bad-op"
+	}
+	// "P" right after the seed: run the service with pings (the ping goroutine never ends: last session only)
+	pings := len(items) > 1 && items[1] == "P"
+	inR, inW, err := os.Pipe()
+	if err != nil {
+		return "pipe-error"
+	}
+	outR, outW, err := os.Pipe()
+	if err != nil {
+		return "pipe-error"
+	}
+	oldIn, oldOut := os.Stdin, os.Stdout
+	os.Stdin, os.Stdout = inR, outW
+	h := &verifHost{inW: inW, rng: seed, answered: map[uint32]bool{}, keyOf: map[uint32]int{}, nextID: 100000, dir: dir}
+	h.cond = sync.NewCond(&h.mu)
+	readerDone := make(chan struct{})
+	go h.reader(outR, readerDone)
+	svcDone := make(chan struct{})
+	panicked := false
+	go func() {
+		defer func() {
+			if r := recover(); r != nil {
+				panicked = true
+			}
+			close(svcDone)
+		}()
+		runService(pings)
+	}()
+	ticker := time.NewTicker(50 * time.Millisecond) // wakes waiters so that deadlines are noticed
+	defer ticker.Stop()
+	stopTick := make(chan struct{})
+	go func() {
+		for {
+			select {
+			case <-ticker.C:
+				h.mu.Lock()
+				h.cond.Broadcast()
+				h.mu.Unlock()
+			case <-stopTick:
+				return
+			}
+		}
+	}()
+	quiet := func() bool { return h.waiting == 0 && h.unanswerd == 0 }
+	ending := ""
+	bad := false
+script:
+	for _, it := range items[1:] {
+		kind, rest := it[0], it[1:]
+		parts := strings.Split(rest, ":")
+		num := func(i int) int {
+			if i >= len(parts) {
+				bad = true
+				return 0
+			}
+			n, err := strconv.Atoi(parts[i])
+			if err != nil {
+				bad = true
+			}
+			return n
+		}
+		switch kind {
+		case 'P':
+		case 'T', 'F', 'I':
+			h.simple(uint32(num(0)), kind)
+		case 'B':
+			opts := ""
+			if len(parts) > 2 {
+				opts = parts[2]
+			}
+			h.build(uint32(num(0)), num(1), opts)
+		case 'R', 'C', 'D', 'S', 'W', 'V':
+			h.keyed(uint32(num(0)), kind, num(1))
+		case 'w':
+			id := uint32(num(0))
+			if !h.waitFor(func() bool { return h.answered[id] }) {
+				ending = "TIMEOUT"
+				break script
+			}
+		case 'q':
+			if !h.waitFor(quiet) {
+				ending = "TIMEOUT"
+				break script
+			}
+		case 'z':
+			time.Sleep(time.Duration(num(0)) * 20 * time.Microsecond)
+		case 'n':
+			h.mu.Lock()
+			h.nested = num(0)
+			h.mu.Unlock()
+		case 'G':
+			h.send(">G", []byte{2, 0, 0, 0, 9, 9})
+		case 'X':
+			id := uint32(num(0))
+			h.send(fmt.Sprintf(">X%d", id), encodePacket(packet{id: id, isRequest: false, value: map[string]interface{}{}}))
+			select {
+			case <-svcDone:
+			case <-time.After(10 * time.Second):
+			}
+			break script
+		default:
+			bad = true
+		}
+		if bad {
+			break
+		}
+	}
+	if ending == "" && !bad {
+		select {
+		case <-svcDone: // a panic: nothing more to wait for
+		default:
+			if !h.waitFor(quiet) {
+				ending = "TIMEOUT"
+			}
+		}
+	}
+	h.wg.Wait()
+	h.mu.Lock()
+	h.log = append(h.log, "EOF")
+	h.dead = true
+	h.mu.Unlock()
+	inW.Close()
+	if ending == "" {
+		select {
+		case <-svcDone:
+			ending = "EXIT"
+			if panicked {
+				ending = "PANIC"
+			}
+		case <-time.After(10 * time.Second):
+			ending = "HANG"
+		}
+	}
+	close(stopTick)
+	os.Stdin, os.Stdout = oldIn, oldOut
+	outW.Close()
+	select {
+	case <-readerDone:
+	case <-time.After(5 * time.Second):
+	}
+	inR.Close()
+	outR.Close()
+	if bad {
+		return "bad-op"
+	}
+	h.mu.Lock()
+	defer h.mu.Unlock()
+	return strings.Join(append(h.log, ending), " ")
+}
+
+func TestVerifAsync(t *testing.T) {
+	opsName, outName := os.Getenv("VERIF_OPS"), os.Getenv("VERIF_OUT")
+	if opsName == "" || outName == "" {
+		t.Skip("VERIF_OPS / VERIF_OUT not set")
+	}
+	in, err := os.Open(opsName)
+	if err != nil {
+		t.Fatal(err)
+	}
+	defer in.Close()
+	outFile, err := os.Create(outName)
+	if err != nil {
+		t.Fatal(err)
+	}
+	dir, err := os.MkdirTemp("", "verif-async-")
+	if err != nil {
+		t.Fatal(err)
+	}
+	defer os.RemoveAll(dir)
+	w := bufio.NewWriterSize(outFile, 1<<20)
+	sc := bufio.NewScanner(in)
+	sc.Buffer(make([]byte, 1<<20), 1<<26)
+	stop := false
+	for sc.Scan() {
+		line := "SKIPPED"
+		if !stop {
+			line = verifAsyncSession(sc.Text(), dir)
+			// after a hang or a time-out goroutines of the old session may still write to os.Stdout
+			stop = strings.HasSuffix(line, "HANG") || strings.HasSuffix(line, "TIMEOUT")
+		}
+		w.WriteString(line)
+		w.WriteByte('\n')
+		w.Flush() // a crash of the service kills this process: what is on disk tells which session it was
+	}
+	if err := outFile.Close(); err != nil {
+		t.Fatal(err)
+	}
+}
